@@ -62,7 +62,8 @@ META = {
     'assumptions': ['patterns use only `*`, `?` and literal characters', 'task option tokens: short clusters, exact long '
                     'names (no unique-prefix abbreviations, no inverse options)',
                     'all actions succeed on a fresh DB; calc_dep tasks return no values (static graph)',
-                    'group tasks have no task_dep besides their sub-tasks (cli tier)',
+                    '--single on a group whose own task_dep lists more than its sub-tasks: every entry is treated like a '
+                    'sub-task (kept, its task_dep dropped) as the code does; the property text does not decide this case',
                     'no target_regex / --auto-delayed-regex'],
     'trusted': ['fnmatch outside `*`/`?`/literals and getopt abbreviations: not exercised',
                 'the translation of a generated task set into model tasks (sellib.model_tasks) is checked against the '
@@ -284,7 +285,7 @@ def violation_kind(r):
     if not r['viol']:
         return None
     v = r['viol'][-1] if any(x['tier'] == 'cli' for x in r['viol']) else r['viol'][0]
-    return (sig_repeated(v), v['tier'])
+    return (sig_repeated(v), v['tier'], tuple(v['failed']))
 
 
 def shrink(case, workdir, budget=60):
